@@ -165,6 +165,8 @@ class Program:
         for c in self.consts:
             self.const_by_name.setdefault(c["name"], []).append(c)
         self._cg = None
+        from . import analyses as _an
+        _an.CURRENT_PROG[:] = [self]
         self._dissolve_helpers()
         self._tuple_accessors()
 
